@@ -83,9 +83,67 @@ pub enum P {
     Diverge,
     ErrorOf(Box<P>),
     Not,
+    // round 2
+    Arr(Box<P>),
+    Math(char, Box<P>, Box<P>),
+    /// `reduce xs as $x (init; upd)` (`upd` sees `$x` as `Var(0)`)
+    Reduce(Box<P>, Box<P>, Box<P>),
+    /// `foreach xs as $x (init; upd[; proj])`
+    Foreach(Box<P>, Box<P>, Box<P>, Option<Box<P>>),
+    /// call of a definition with arguments (closures): `repeat(f)`, `while(c; u)`, `d4(a; f)`, …
+    App(Dn, Vec<P>),
     // only produced by lowering
     Call(usize),
     TCall(usize),
+    FVar(usize),
+    CallA(bool, usize, usize, Vec<(bool, P)>),
+    TCallA(usize, usize, Vec<(bool, P)>),
+}
+
+/// definitions with arguments: those of `jaq-core/src/defs.jq` and the test definitions of `PRELUDE`
+#[derive(Clone, Copy, Debug, PartialEq, Eq, Hash)]
+pub enum Dn {
+    Repeat,
+    Recurse,
+    While,
+    Until,
+    D1,
+    D2,
+    D3,
+    D4,
+    D5,
+    D6,
+}
+
+pub const PRELUDE: &str = "def d1(f): f, f; def d2(f; g): f | g; def d3(f): first(f), 5; def d4($a; f): $a, f, $a; \
+def d5(f): d1(f); def d6(f): f, d6(f | 1);";
+
+impl Dn {
+    fn name(self) -> &'static str {
+        match self {
+            Dn::Repeat => "repeat",
+            Dn::Recurse => "recurse",
+            Dn::While => "while",
+            Dn::Until => "until",
+            Dn::D1 => "d1",
+            Dn::D2 => "d2",
+            Dn::D3 => "d3",
+            Dn::D4 => "d4",
+            Dn::D5 => "d5",
+            Dn::D6 => "d6",
+        }
+    }
+    /// kinds of the parameters: `true` = filter argument, `false` = `$`-argument
+    pub fn params(self) -> &'static [bool] {
+        match self {
+            Dn::Repeat | Dn::Recurse | Dn::D1 | Dn::D3 | Dn::D5 | Dn::D6 => &[true],
+            Dn::While | Dn::Until | Dn::D2 => &[true, true],
+            Dn::D4 => &[false, true],
+        }
+    }
+    pub fn all() -> [Dn; 10] {
+        [Dn::Repeat, Dn::Recurse, Dn::While, Dn::Until, Dn::D1, Dn::D2, Dn::D3, Dn::D4, Dn::D5, Dn::D6]
+    }
 }
 
 fn b(p: P) -> Box<P> {
@@ -168,74 +226,253 @@ fn text(p: &P, env: &mut Vec<(bool, usize)>, fresh: &mut usize) -> String {
         P::Any(g, c) => format!("any({}; {})", t(g, env, fresh), t(c, env, fresh)),
         P::All(g, c) => format!("all({}; {})", t(g, env, fresh), t(c, env, fresh)),
         P::Nth(n, g) => format!("nth({n}; {})", t(g, env, fresh)),
-        P::Repeat(f) => format!("repeat({})", t(f, &mut Vec::new(), fresh)),
-        P::Recurse(f) => format!("recurse({})", t(f, &mut Vec::new(), fresh)),
+        P::Repeat(f) => format!("repeat({})", t(f, env, fresh)),
+        P::Recurse(f) => format!("recurse({})", t(f, env, fresh)),
         P::Diverge => "dv".into(),
         P::ErrorOf(f) => format!("error({})", t(f, env, fresh)),
         P::Not => "not".into(),
-        P::Call(_) | P::TCall(_) => unreachable!(),
+        P::Arr(f) => format!("[{}]", t(f, env, fresh)),
+        P::Math(op, l, r) => format!("({} {op} {})", t(l, env, fresh), t(r, env, fresh)),
+        P::Reduce(xs, i, u) => {
+            let (xs, i) = (t(xs, env, fresh), t(i, env, fresh));
+            *fresh += 1;
+            let n = *fresh;
+            env.push((false, n));
+            let u = t(u, env, fresh);
+            env.pop();
+            format!("reduce ({xs}) as $v{n} ({i}; {u})")
+        }
+        P::Foreach(xs, i, u, pr) => {
+            let (xs, i) = (t(xs, env, fresh), t(i, env, fresh));
+            *fresh += 1;
+            let n = *fresh;
+            env.push((false, n));
+            let u = t(u, env, fresh);
+            let pr = pr.as_ref().map(|pr| t(pr, env, fresh));
+            env.pop();
+            match pr {
+                Some(pr) => format!("foreach ({xs}) as $v{n} ({i}; {u}; {pr})"),
+                None => format!("foreach ({xs}) as $v{n} ({i}; {u})"),
+            }
+        }
+        P::App(d, args) => {
+            let a: Vec<String> = args.iter().map(|a| t(a, env, fresh)).collect();
+            format!("{}({})", d.name(), a.join("; "))
+        }
+        P::Call(_) | P::TCall(_) | P::FVar(_) | P::CallA(..) | P::TCallA(..) => unreachable!(),
     }
 }
 
 pub fn program_text(p: &P) -> String {
-    format!("def null: [][0]; def dv: dv; {}", text(p, &mut Vec::new(), &mut 0))
+    format!("def null: [][0]; def dv: dv; {PRELUDE} {}", text(p, &mut Vec::new(), &mut 0))
 }
 
-/// lowering of the derived forms to the core fragment, following `defs.jq`
-fn lower(p: &P, defs: &mut Vec<P>) -> P {
-    let mut l = |p: &P| b(lower(p, defs));
+/// is this a `$`-argument the model binds directly (`.`, a literal, a variable)?
+fn simple_arg(p: &P, env: &[bool]) -> bool {
     match p {
-        P::Id | P::Lit(_) | P::Empty | P::Error | P::Halt(_) | P::Input | P::Inputs | P::Var(_) | P::Range(..)
-        | P::Call(_) | P::TCall(_) => p.clone(),
-        P::Comma(x, y) => P::Comma(l(x), l(y)),
-        P::Pipe(x, y) => P::Pipe(l(x), l(y)),
-        P::As(x, y) => P::As(l(x), l(y)),
-        P::Ite(c, x, y) => P::Ite(l(c), l(x), l(y)),
-        P::Alt(x, y) => P::Alt(l(x), l(y)),
-        P::Or(x, y) => P::Or(l(x), l(y)),
-        P::And(x, y) => P::And(l(x), l(y)),
-        P::First(f) => P::First(l(f)),
-        P::Limit(n, f) => P::Limit(*n, l(f)),
-        P::Skip(n, f) => P::Skip(*n, l(f)),
-        P::Try(f, c) => P::Try(l(f), l(c)),
-        P::Label(f) => P::Label(l(f)),
-        P::Index(f, i) => P::Index(l(f), l(i)),
-        // def isempty(g): first((g | false), true);
-        P::IsEmpty(g) => P::First(b(comma(pipe(*l(g), P::Lit(L::False)), P::Lit(L::True)))),
-        // def all(g; cond): isempty(g | cond and empty);
-        P::All(g, c) => {
-            let inner = pipe(*l(g), P::And(l(c), b(P::Empty)));
-            lower(&P::IsEmpty(b(inner)), defs)
+        P::Id | P::Lit(_) => true,
+        P::Var(i) => !env[env.len() - 1 - *i],
+        _ => false,
+    }
+}
+
+/// add `by` to the de Bruijn indices of the free variables of `p` (those `>= cut`)
+fn shift(p: &P, cut: usize, by: usize) -> P {
+    let s = |p: &P| b(shift(p, cut, by));
+    let s1 = |p: &P| b(shift(p, cut + 1, by));
+    match p {
+        P::Var(i) => P::Var(if *i >= cut { *i + by } else { *i }),
+        P::Id | P::Lit(_) | P::Empty | P::Error | P::Halt(_) | P::Input | P::Inputs | P::Range(..) | P::Diverge | P::Not => p.clone(),
+        P::Comma(x, y) => P::Comma(s(x), s(y)),
+        P::Pipe(x, y) => P::Pipe(s(x), s(y)),
+        P::As(x, y) => P::As(s(x), s1(y)),
+        P::Ite(c, x, y) => P::Ite(s(c), s(x), s(y)),
+        P::Alt(x, y) => P::Alt(s(x), s(y)),
+        P::Or(x, y) => P::Or(s(x), s(y)),
+        P::And(x, y) => P::And(s(x), s(y)),
+        P::First(f) => P::First(s(f)),
+        P::Limit(n, f) => P::Limit(*n, s(f)),
+        P::Skip(n, f) => P::Skip(*n, s(f)),
+        P::Try(f, c) => P::Try(s(f), s(c)),
+        P::Label(f) => P::Label(s1(f)),
+        P::Index(f, i) => P::Index(s(f), s(i)),
+        P::IsEmpty(g) => P::IsEmpty(s(g)),
+        P::Any(g, c) => P::Any(s(g), s(c)),
+        P::All(g, c) => P::All(s(g), s(c)),
+        P::Nth(n, g) => P::Nth(*n, s(g)),
+        P::Repeat(f) => P::Repeat(s(f)),
+        P::Recurse(f) => P::Recurse(s(f)),
+        P::ErrorOf(f) => P::ErrorOf(s(f)),
+        P::Arr(f) => P::Arr(s(f)),
+        P::Math(op, x, y) => P::Math(*op, s(x), s(y)),
+        P::Reduce(xs, i, u) => P::Reduce(s(xs), s(i), s1(u)),
+        P::Foreach(xs, i, u, pr) => P::Foreach(s(xs), s(i), s1(u), pr.as_ref().map(|pr| s1(pr))),
+        P::App(d, args) => P::App(*d, args.iter().map(|a| shift(a, cut, by)).collect()),
+        P::Call(_) | P::TCall(_) | P::FVar(_) | P::CallA(..) | P::TCallA(..) => unreachable!("shift after lowering"),
+    }
+}
+
+/// Lowering of the derived forms to the core fragment.  Forms whose definition in `defs.jq` takes
+/// no closure apart from a generator that is used once (`isempty`, `any`, `all`, `nth`, `not`,
+/// `error(f)`) are unfolded in place; `repeat`, `recurse`, `while`, `until` and the definitions
+/// of `PRELUDE` become calls with closures, exactly as the compiler produces them
+/// (`CallDef(id, args, skip, call type)`; all of them are top-level definitions, so `skip` is the
+/// number of bindings in scope at the call site).
+pub struct Lower {
+    pub defs: Vec<P>,
+    known: std::collections::HashMap<Dn, usize>,
+}
+
+impl Lower {
+    pub fn new() -> Lower {
+        Lower { defs: Vec::new(), known: Default::default() }
+    }
+
+    /// entry definition of `d` (its body and the local definitions it needs are created on first use)
+    fn def(&mut self, d: Dn) -> usize {
+        if let Some(i) = self.known.get(&d) {
+            return *i;
         }
-        // def any(g; cond): isempty(g | cond or empty) | not;
-        P::Any(g, c) => {
-            let inner = pipe(*l(g), P::Or(l(c), b(P::Empty)));
-            pipe(lower(&P::IsEmpty(b(inner)), defs), lower(&P::Not, defs))
+        let f0 = || P::FVar(0);
+        let f1 = || P::FVar(1);
+        // a definition `def d(…): def rec: BODY; rec;`: `rec` sees the arguments of `d` (skip 0),
+        // the call in `d`'s body catches the tail calls of `rec` to itself (`CatchOne`)
+        let mut with_rec = |this: &mut Lower, body: &dyn Fn(usize) -> P| -> usize {
+            let rec = this.defs.len();
+            this.defs.push(P::Empty);
+            this.defs[rec] = body(rec);
+            let entry = this.defs.len();
+            this.defs.push(P::CallA(true, rec, 0, vec![]));
+            entry
+        };
+        let tc = |rec: usize| P::TCallA(rec, 0, vec![]);
+        let i = match d {
+            // def repeat(f): def rec: f, rec; rec;
+            Dn::Repeat => with_rec(self, &|rec| comma(f0(), tc(rec))),
+            // def recurse(f): def rec: ., (f | rec); rec;
+            Dn::Recurse => with_rec(self, &|rec| comma(P::Id, pipe(f0(), tc(rec)))),
+            // def while(cond; update): def rec: if cond then ., (update | rec) else empty end; rec;
+            Dn::While => with_rec(self, &|rec| P::Ite(b(f1()), b(comma(P::Id, pipe(f0(), tc(rec)))), b(P::Empty))),
+            // def until(cond; update): def rec: if cond then . else update | rec end; rec;
+            Dn::Until => with_rec(self, &|rec| P::Ite(b(f1()), b(P::Id), b(pipe(f0(), tc(rec))))),
+            // def d1(f): f, f;
+            Dn::D1 => self.push(comma(f0(), f0())),
+            // def d2(f; g): f | g;
+            Dn::D2 => self.push(pipe(f1(), f0())),
+            // def d3(f): first(f), 5;
+            Dn::D3 => self.push(comma(P::First(b(f0())), lit(5))),
+            // def d4($a; f): $a, f, $a;
+            Dn::D4 => self.push(comma(P::Var(1), comma(f0(), P::Var(1)))),
+            // def d5(f): d1(f);   (the argument is passed on: `closure` reuses the binding)
+            Dn::D5 => {
+                let d1 = self.def(Dn::D1);
+                self.push(P::CallA(false, d1, 1, vec![(true, f0())]))
+            }
+            // def d6(f): f, d6(f | 1);   (tail call with a new closure)
+            Dn::D6 => {
+                let me = self.defs.len();
+                self.defs.push(P::Empty);
+                self.defs[me] = comma(f0(), P::TCallA(me, 1, vec![(true, pipe(f0(), lit(1)))]));
+                me
+            }
+        };
+        self.known.insert(d, i);
+        i
+    }
+
+    fn push(&mut self, p: P) -> usize {
+        self.defs.push(p);
+        self.defs.len() - 1
+    }
+
+    /// does the call of `d` from outside need the trampoline (`CatchOne`)?  only `d6` calls itself
+    fn catches(d: Dn) -> bool {
+        d == Dn::D6
+    }
+
+    /// `env`: for every binding in scope whether it is a label
+    pub fn lower(&mut self, p: &P, env: &mut Vec<bool>) -> P {
+        macro_rules! l {
+            ($p:expr) => {
+                b(self.lower($p, env))
+            };
         }
-        // def not: if . then false else true end;
-        P::Not => P::Ite(b(P::Id), b(P::Lit(L::False)), b(P::Lit(L::True))),
-        // def nth(n; g): first(skip(n; g));
-        P::Nth(n, g) => P::First(b(P::Skip(*n, l(g)))),
-        // def error(msgs): (msgs | error_empty) as $x | .;
-        P::ErrorOf(f) => pipe(*l(f), P::Error),
-        // def repeat(f): def rec: f, rec; rec;
-        P::Repeat(f) => {
-            let f = lower(f, defs);
-            let i = defs.len();
-            defs.push(comma(f, P::TCall(i)));
-            P::Call(i)
+        macro_rules! l1 {
+            ($p:expr, $lab:expr) => {{
+                env.push($lab);
+                let r = b(self.lower($p, env));
+                env.pop();
+                r
+            }};
         }
-        // def recurse(f): def rec: ., (f | rec); rec;
-        P::Recurse(f) => {
-            let f = lower(f, defs);
-            let i = defs.len();
-            defs.push(comma(P::Id, pipe(f, P::TCall(i))));
-            P::Call(i)
-        }
-        P::Diverge => {
-            let i = defs.len();
-            defs.push(P::TCall(i));
-            P::Call(i)
+        match p {
+            P::Id | P::Lit(_) | P::Empty | P::Error | P::Halt(_) | P::Input | P::Inputs | P::Var(_) | P::Range(..)
+            | P::Call(_) | P::TCall(_) | P::FVar(_) | P::CallA(..) | P::TCallA(..) => p.clone(),
+            P::Comma(x, y) => P::Comma(l!(x), l!(y)),
+            P::Pipe(x, y) => P::Pipe(l!(x), l!(y)),
+            P::As(x, y) => P::As(l!(x), l1!(y, false)),
+            P::Ite(c, x, y) => P::Ite(l!(c), l!(x), l!(y)),
+            P::Alt(x, y) => P::Alt(l!(x), l!(y)),
+            P::Or(x, y) => P::Or(l!(x), l!(y)),
+            P::And(x, y) => P::And(l!(x), l!(y)),
+            P::First(f) => P::First(l!(f)),
+            P::Limit(n, f) => P::Limit(*n, l!(f)),
+            P::Skip(n, f) => P::Skip(*n, l!(f)),
+            P::Try(f, c) => P::Try(l!(f), l!(c)),
+            P::Label(f) => P::Label(l1!(f, true)),
+            P::Index(f, i) => P::Index(l!(f), l!(i)),
+            P::Arr(f) => P::Arr(l!(f)),
+            P::Math(op, x, y) => P::Math(*op, l!(x), l!(y)),
+            P::Reduce(xs, i, u) => P::Reduce(l!(xs), l!(i), l1!(u, false)),
+            P::Foreach(xs, i, u, pr) => {
+                let (xs, i, u) = (l!(xs), l!(i), l1!(u, false));
+                let pr = pr.as_ref().map(|pr| l1!(pr, false));
+                P::Foreach(xs, i, u, pr)
+            }
+            // def isempty(g): first((g | false), true);
+            P::IsEmpty(g) => P::First(b(comma(pipe(*l!(g), P::Lit(L::False)), P::Lit(L::True)))),
+            // def all(g; cond): isempty(g | cond and empty);
+            P::All(g, c) => {
+                let inner = pipe(*l!(g), P::And(l!(c), b(P::Empty)));
+                P::First(b(comma(pipe(inner, P::Lit(L::False)), P::Lit(L::True))))
+            }
+            // def any(g; cond): isempty(g | cond or empty) | not;
+            P::Any(g, c) => {
+                let inner = pipe(*l!(g), P::Or(l!(c), b(P::Empty)));
+                let isempty = P::First(b(comma(pipe(inner, P::Lit(L::False)), P::Lit(L::True))));
+                pipe(isempty, self.lower(&P::Not, env))
+            }
+            // def not: if . then false else true end;
+            P::Not => P::Ite(b(P::Id), b(P::Lit(L::False)), b(P::Lit(L::True))),
+            // def nth(n; g): first(skip(n; g));
+            P::Nth(n, g) => P::First(b(P::Skip(*n, l!(g)))),
+            // def error(msgs): (msgs | error_empty) as $x | .;
+            P::ErrorOf(f) => pipe(*l!(f), P::Error),
+            P::Repeat(f) => self.lower(&P::App(Dn::Repeat, vec![(**f).clone()]), env),
+            P::Recurse(f) => self.lower(&P::App(Dn::Recurse, vec![(**f).clone()]), env),
+            // def dv: dv;
+            P::Diverge => {
+                let i = self.defs.len();
+                self.defs.push(P::TCall(i));
+                P::Call(i)
+            }
+            P::App(d, args) => {
+                let kinds = d.params();
+                assert_eq!(kinds.len(), args.len());
+                // a `$`-argument that is not simple is bound first: `d4(e; g)` = `e as $t | d4($t; g)`
+                if let Some(j) = (0..args.len()).find(|j| !kinds[*j] && !simple_arg(&args[*j], env)) {
+                    let mut args2: Vec<P> = args.iter().map(|a| shift(a, 0, 1)).collect();
+                    args2[j] = P::Var(0);
+                    let e = l!(&args[j]);
+                    env.push(false);
+                    let rest = b(self.lower(&P::App(*d, args2), env));
+                    env.pop();
+                    return P::As(e, rest);
+                }
+                let entry = self.def(*d);
+                let largs: Vec<(bool, P)> = kinds.iter().zip(args).map(|(k, a)| (*k, self.lower(a, env))).collect();
+                P::CallA(Lower::catches(*d), entry, env.len(), largs)
+            }
         }
     }
 }
@@ -281,6 +518,26 @@ fn toks(p: &P, out: &mut Vec<String>) {
         P::TCall(i) => out.extend(["tcall".into(), i.to_string()]),
         P::Range(a, bb, c) => out.extend(["range".into(), a.to_string(), bb.to_string(), c.to_string()]),
         P::Index(f, i) => un("index", &[f, i], out),
+        P::Arr(f) => un("arr", &[f], out),
+        P::Math(op, l, r) => un(match op { '+' => "add", '-' => "sub", _ => "mul" }, &[l, r], out),
+        P::Reduce(xs, i, u) => un("reduce", &[xs, i, u], out),
+        P::Foreach(xs, i, u, None) => un("foreach", &[xs, i, u], out),
+        P::Foreach(xs, i, u, Some(pr)) => un("foreachp", &[xs, i, u, pr], out),
+        P::FVar(i) => out.extend(["fvar".into(), i.to_string()]),
+        P::CallA(catch, i, skip, args) => {
+            out.extend(["calla".into(), if *catch { "catch" } else { "inline" }.into(), i.to_string(), skip.to_string(), args.len().to_string()]);
+            for (k, a) in args {
+                out.push(if *k { "F" } else { "V" }.into());
+                toks(a, out);
+            }
+        }
+        P::TCallA(i, skip, args) => {
+            out.extend(["tcalla".into(), i.to_string(), skip.to_string(), args.len().to_string()]);
+            for (k, a) in args {
+                out.push(if *k { "F" } else { "V" }.into());
+                toks(a, out);
+            }
+        }
         _ => unreachable!("derived form after lowering"),
     }
 }
@@ -288,8 +545,9 @@ fn toks(p: &P, out: &mut Vec<String>) {
 pub const FUEL: usize = 3000;
 
 pub fn request(p: &P, inputs: &[Val], k: usize) -> String {
-    let mut defs = Vec::new();
-    let core = lower(p, &mut defs);
+    let mut lw = Lower::new();
+    let core = lw.lower(p, &mut Vec::new());
+    let defs = lw.defs;
     let mut out: Vec<String> = vec!["c03.take".into(), FUEL.to_string(), k.to_string(), inputs.len().to_string()];
     for v in inputs {
         vx::enc_into(v, &mut out);
@@ -308,6 +566,9 @@ fn canon_err(v: Val) -> Val {
     if let Val::TStr(s) = &v {
         if s.starts_with(b"cannot index") {
             return tstr(b"cannot index");
+        }
+        if s.starts_with(b"cannot calculate") {
+            return tstr(b"cannot calculate");
         }
     }
     v
@@ -520,6 +781,39 @@ fn generators(pos: usize, bomb: &P) -> Vec<(&'static str, P)> {
     }
     // skip(1; (1, …, 94, BOMB))
     v.push(("skip", P::Skip(1, b(commas(with(vec![lit(94), bomb.clone()]))))));
+    // ---- round 2: reduce / foreach, closures, arrays, arithmetic
+    let x0 = || P::Var(0);
+    // foreach (1, …, BOMB, 99) as $x (0; $x): the list of `xs` is forced one node at a time
+    v.push(("foreach-xs", P::Foreach(b(commas(with(vec![bomb.clone(), lit(99)]))), b(lit(0)), b(x0()), None)));
+    // foreach (1, …, false) as $x (0; if $x then $x else BOMB end)
+    let upd = P::Ite(b(x0()), b(x0()), b(bomb.clone()));
+    v.push(("foreach-upd", P::Foreach(b(commas(with(vec![P::Lit(L::False), lit(93)]))), b(lit(0)), b(upd), None)));
+    // foreach (1, …, null) as $x (0; $x; if . then ., BOMB-free else BOMB end)
+    let pr = P::Ite(b(P::Id), b(P::Id), b(bomb.clone()));
+    v.push(("foreach-proj", P::Foreach(b(commas(with(vec![P::Lit(L::Null), lit(92)]))), b(lit(0)), b(x0()), Some(b(pr)))));
+    // foreach (1, …, 91) as $x ((0, BOMB); $x): the second output of `init` is never asked for
+    v.push(("foreach-init", P::Limit(pos, b(P::Foreach(b(commas(with(vec![lit(91)]))), b(comma(lit(0), bomb.clone())), b(x0()), None)))));
+    // (limit(pos; foreach inputs as $x (0; . + $x)) | 1), BOMB
+    let sums = P::Foreach(b(P::Inputs), b(lit(0)), b(P::Math('+', b(P::Id), b(x0()))), None);
+    v.push(("foreach-inputs", comma(pipe(P::Limit(pos, b(sums)), lit(1)), bomb.clone())));
+    // (1, …) | reduce (1, 2) as $x (.; . + $x)   then BOMB
+    let red = P::Reduce(b(comma(lit(1), lit(2))), b(P::Id), b(P::Math('+', b(P::Id), b(x0()))));
+    v.push(("reduce-piped", comma(pipe(commas(items.clone()), red), bomb.clone())));
+    // foreach (1, …) as $x (0; ($x, BOMB)): the second output of `update` is behind the first of the next element …
+    // … so only the first `pos` outputs of the depth-first order are bomb-free when `update` is `($x, …)`
+    v.push(("foreach-dfs", P::Foreach(b(commas(with(vec![lit(90)]))), b(lit(0)), b(comma(x0(), bomb.clone())), None)));
+    // repeat / while / d-definitions with closures that see the bomb
+    v.push(("closure-d1", P::App(Dn::D1, vec![commas(with(vec![bomb.clone()]))])));
+    v.push(("closure-d2", P::App(Dn::D2, vec![commas(with(vec![P::Lit(L::False), lit(89)])), ite.clone()])));
+    v.push(("closure-d4", comma(P::Limit(pos, b(P::App(Dn::Repeat, vec![lit(7)]))), P::App(Dn::D4, vec![bomb.clone(), lit(1)]))));
+    v.push(("closure-d6", comma(P::Limit(pos, b(P::App(Dn::D6, vec![lit(3)]))), bomb.clone())));
+    // true | while(.; BOMB): the first output comes before `update` is run
+    v.push(("while", comma(commas(items.iter().skip(1).cloned().chain([lit(1)]).collect()), pipe(P::Lit(L::True), pipe(P::App(Dn::While, vec![P::Id, bomb.clone()]), lit(88))))));
+    // (1, …, BOMB) + 0   and   0 + (1, …, BOMB)   (the left operand is the outer loop)
+    v.push(("math-l", P::Math('+', b(commas(with(vec![bomb.clone()]))), b(lit(0)))));
+    v.push(("math-r", P::Math('+', b(lit(0)), b(commas(with(vec![bomb.clone()]))))));
+    // (1, …) | [., 0] | .[0]   then BOMB
+    v.push(("arr", comma(pipe(commas(items.clone()), P::Index(b(P::Arr(b(comma(P::Id, lit(0))))), b(lit(0)))), bomb.clone())));
     v
 }
 
@@ -544,6 +838,10 @@ fn consumers(g: &P, pos: usize) -> Vec<(&'static str, P, usize)> {
         // limit inside a pipe: limit(pos; g) | (., 0)
         v.push(("limit-pipe", pipe(P::Limit(pos, b(g.clone())), comma(P::Id, lit(0))), 2 * pos + 1));
         v.push(("try-limit", P::Try(b(P::Limit(pos, b(g.clone()))), b(lit(1))), pos + 1));
+        // round 2: in-language observation `[limit(pos; g)]`; a prefix consumer defined with a closure; foreach as consumer
+        v.push(("arr-limit", P::Arr(b(P::Limit(pos, b(g.clone())))), 2));
+        v.push(("closure-first", P::App(Dn::D3, vec![g.clone()]), 3));
+        v.push(("foreach-limit", P::Limit(pos, b(P::Foreach(b(P::Range(0, 9, 1)), b(lit(0)), b(P::Var(0)), Some(b(shift(g, 0, 1)))))), pos + 1));
     }
     v
 }
@@ -638,6 +936,50 @@ fn special(em: &mut Emit) {
         ("ctor:try-in-try", P::Try(b(P::Try(b(P::Error), b(P::Error))), b(comma(P::Id, P::Input))), ins.clone(), 3),
         ("ctor:skip-input", P::Skip(2, b(P::Inputs)), ins.clone(), 1),
         ("ctor:and-or", P::And(b(comma(P::Lit(L::True), P::Lit(L::False))), b(comma(P::Input, P::Lit(L::Null)))), ins.clone(), 2),
+        // ---- round 2
+        // the manual's examples
+        ("fold:reduce-sum", P::Reduce(b(commas(vec![lit(1), lit(2), lit(3)])), b(lit(0)), b(P::Math('+', b(P::Id), b(P::Var(0))))), ins.clone(), 2),
+        ("fold:foreach-sum", P::Foreach(b(commas(vec![lit(1), lit(2), lit(3)])), b(lit(0)), b(P::Math('+', b(P::Id), b(P::Var(0)))), None), ins.clone(), 4),
+        ("fold:foreach-proj", P::Foreach(b(commas(vec![lit(1), lit(2), lit(3)])), b(lit(0)), b(P::Math('+', b(P::Id), b(P::Var(0)))), Some(b(P::Arr(b(comma(P::Var(0), P::Id)))))), ins.clone(), 4),
+        ("fold:foreach-multi", P::Foreach(b(comma(lit(5), lit(10))), b(lit(1)), b(comma(P::Math('+', b(P::Id), b(P::Var(0))), P::Math('-', b(lit(0)), b(P::Id)))), None), ins.clone(), 7),
+        ("fold:reduce-multi", P::Reduce(b(comma(lit(5), lit(10))), b(lit(1)), b(comma(P::Math('+', b(P::Id), b(P::Var(0))), P::Math('-', b(lit(0)), b(P::Id))))), ins.clone(), 5),
+        ("fold:reduce-empty", comma(P::Reduce(b(P::Empty), b(lit(0)), b(P::Var(0))), P::Foreach(b(P::Empty), b(lit(0)), b(P::Var(0)), None)), ins.clone(), 2),
+        // the list is shared: the inputs are read once, for the first output of `init`, and re-read from the list for the second
+        ("fold:shared-list", P::Foreach(b(P::Limit(2, b(P::Inputs))), b(comma(lit(0), lit(1000))), b(P::Math('+', b(P::Id), b(P::Var(0)))), None), ins.clone(), 5),
+        ("fold:shared-list-partial", P::Foreach(b(P::Inputs), b(comma(lit(0), lit(1000))), b(P::Ite(b(P::Id), b(P::Empty), b(P::Var(0)))), None), ins.clone(), 3),
+        ("fold:foreach-inputs", P::Foreach(b(P::Inputs), b(lit(0)), b(P::Math('+', b(P::Id), b(P::Var(0)))), None), ins.clone(), 3),
+        ("fold:reduce-inputs-then-input", comma(P::Reduce(b(P::Limit(2, b(P::Inputs))), b(lit(0)), b(P::Math('+', b(P::Id), b(P::Var(0))))), P::Input), ins.clone(), 2),
+        ("fold:error-in-xs", P::Foreach(b(comma(lit(1), comma(P::Error, lit(2)))), b(lit(0)), b(P::Var(0)), None), ins.clone(), 4),
+        ("fold:error-in-update", P::Try(b(P::Foreach(b(comma(lit(1), lit(2))), b(lit(0)), b(comma(P::Var(0), P::Error)), None)), b(lit(77))), ins.clone(), 4),
+        ("fold:init-input", P::Foreach(b(comma(lit(1), lit(2))), b(comma(P::Input, P::Input)), b(comma(P::Id, P::Var(0))), None), ins.clone(), 7),
+        ("fold:update-input", P::Foreach(b(P::Range(0, 3, 1)), b(lit(0)), b(P::Input), None), ins.clone(), 2),
+        ("fold:break-from-update", P::Label(b(P::Foreach(b(P::Range(0, 5, 1)), b(lit(0)), b(P::Ite(b(P::Var(0)), b(P::Var(1)), b(P::Var(0)))), None))), ins.clone(), 3),
+        ("fold:nested", P::Foreach(b(comma(lit(1), lit(2))), b(lit(0)), b(P::Reduce(b(comma(lit(10), lit(20))), b(P::Id), b(P::Math('+', b(P::Id), b(P::Math('+', b(P::Var(0)), b(P::Var(1)))))))), None), ins.clone(), 3),
+        ("fold:limit0-xs", comma(P::Foreach(b(P::Limit(0, b(P::Inputs))), b(lit(0)), b(P::Var(0)), None), P::Input), ins.clone(), 2),
+        // closures
+        ("clo:repeat", P::Limit(3, b(P::App(Dn::Repeat, vec![comma(lit(1), lit(2))]))), ins.clone(), 4),
+        ("clo:repeat-input", P::App(Dn::Repeat, vec![P::Input]), vec![int(1), int(2)], 2),
+        ("clo:recurse-add", pipe(lit(0), P::Limit(4, b(P::App(Dn::Recurse, vec![P::Math('+', b(P::Id), b(lit(1)))])))), ins.clone(), 5),
+        ("clo:while", pipe(P::Lit(L::Arr(vec![1, 2, 3])), P::App(Dn::While, vec![P::Index(b(P::Id), b(lit(0))), P::Index(b(P::Id), b(lit(5)))])), ins.clone(), 3),
+        ("clo:until", pipe(P::Lit(L::False), P::App(Dn::Until, vec![P::Id, P::Input])), vec![L::Null.val(), int(3), int(4)], 2),
+        ("clo:break-from-arg", P::Label(b(P::App(Dn::D1, vec![comma(lit(1), P::Var(0))]))), ins.clone(), 3),
+        ("clo:var-capture", P::As(b(comma(lit(1), lit(2))), b(P::App(Dn::D2, vec![P::Var(0), P::Math('+', b(P::Id), b(P::Var(0)))]))), ins.clone(), 3),
+        ("clo:dollar-arg", P::App(Dn::D4, vec![comma(lit(1), P::Input), P::Inputs]), vec![int(5), int(6)], 9),
+        ("clo:dollar-arg-var", P::As(b(lit(4)), b(P::App(Dn::D4, vec![P::Var(0), P::Var(0)]))), ins.clone(), 4),
+        ("clo:pass-on", P::Limit(3, b(P::App(Dn::D5, vec![P::Inputs]))), ins.clone(), 4),
+        ("clo:tail-call-new-closure", P::Limit(4, b(P::App(Dn::D6, vec![P::Input]))), ins.clone(), 5),
+        ("clo:inline-upper", pipe(P::App(Dn::D2, vec![lit(1), lit(2)]), P::Input), ins.clone(), 1),
+        ("clo:nested-repeat", P::Limit(3, b(P::App(Dn::Repeat, vec![P::Limit(2, b(P::App(Dn::Repeat, vec![P::Input])))]))), ins.clone(), 4),
+        // arrays and arithmetic
+        ("arr:collects-all", comma(P::First(b(P::Arr(b(P::Limit(2, b(P::Inputs)))))), P::Input), ins.clone(), 2),
+        ("arr:error-inside", P::Try(b(P::Arr(b(comma(lit(1), comma(P::Error, P::Input))))), b(P::Input)), ins.clone(), 2),
+        ("arr:lazy-outside", pipe(comma(lit(1), P::Input), P::Arr(b(comma(P::Id, P::Id)))), ins.clone(), 1),
+        ("math:cartesian-order", P::Math('+', b(comma(lit(10), lit(20))), b(comma(lit(1), lit(2)))), ins.clone(), 5),
+        ("math:inputs-order", P::Math('-', b(P::Input), b(P::Input)), ins.clone(), 2),
+        ("math:right-per-left", P::Math('+', b(comma(lit(0), lit(0))), b(P::Input)), ins.clone(), 3),
+        ("math:error-left", P::Math('+', b(comma(P::Error, lit(1))), b(P::Input)), ins.clone(), 3),
+        ("math:type-error", P::Try(b(P::Math('*', b(P::Lit(L::True)), b(lit(2)))), b(P::Id)), ins.clone(), 2),
+        ("math:arr-concat", P::Math('+', b(P::Arr(b(comma(lit(1), lit(2))))), b(P::Arr(b(P::Input)))), ins.clone(), 2),
     ];
     for (tag, p, inputs, k) in cases {
         for kk in 1..=k {
@@ -670,7 +1012,51 @@ fn rand_prog(rng: &mut Rng, depth: usize, env: &mut Vec<bool>, effects: bool) ->
         };
     }
     let sub = |rng: &mut Rng, env: &mut Vec<bool>| b(rand_prog(rng, depth - 1, env, effects));
-    match rng.below(19) {
+    match rng.below(26) {
+        19 => P::Arr(sub(rng, env)),
+        20 => P::Math(*rng.pick(&['+', '+', '-', '*']), sub(rng, env), sub(rng, env)),
+        21 | 22 => {
+            // reduce / foreach; the source is one whose construction touches nothing
+            let xs = match rng.below(6) {
+                0 => P::Inputs,
+                1 => P::Range(0, rng.below(4) as i64, 1),
+                2 => comma(lit(rng.below(3) as i64), *sub(rng, env)),
+                3 => P::Limit(rng.below(3), b(P::Inputs)),
+                4 => pipe(P::Inputs, *sub(rng, env)),
+                _ => P::Try(b(comma(lit(1), *sub(rng, env))), sub(rng, env)),
+            };
+            let init = sub(rng, env);
+            env.push(false);
+            let upd = match rng.below(4) {
+                0 => b(P::Math('+', b(P::Id), b(P::Var(0)))),
+                1 => b(P::Var(0)),
+                _ => sub(rng, env),
+            };
+            let pr = if rng.chance(1, 3) { Some(sub(rng, env)) } else { None };
+            env.pop();
+            match rng.below(3) {
+                0 => P::Reduce(b(xs), init, upd),
+                _ => P::Foreach(b(xs), init, upd, pr),
+            }
+        }
+        23 | 24 => {
+            // definitions with closures; the generators are cut by a limit
+            let d = *rng.pick(&Dn::all());
+            let mut args: Vec<P> = d.params().iter().map(|_| *sub(rng, env)).collect();
+            // keep the generators productive: a `repeat`/`d6` of a filter without outputs, or an
+            // `until` whose condition never holds, runs forever without output
+            match d {
+                Dn::Repeat | Dn::D6 => args[0] = comma(args[0].clone(), lit(8)),
+                Dn::Until => args[0] = comma(P::Lit(L::True), args[0].clone()),
+                _ => {}
+            }
+            let call = P::App(d, args);
+            match d {
+                Dn::Repeat | Dn::Recurse | Dn::While | Dn::Until | Dn::D6 => P::Limit(1 + rng.below(3), b(call)),
+                _ => call,
+            }
+        }
+        25 => P::Limit(1 + rng.below(3), b(P::App(Dn::Repeat, vec![comma(*sub(rng, env), lit(8))]))),
         0 | 1 => P::Comma(sub(rng, env), sub(rng, env)),
         2 | 3 => P::Pipe(sub(rng, env), sub(rng, env)),
         4 => {
@@ -699,7 +1085,7 @@ fn rand_prog(rng: &mut Rng, depth: usize, env: &mut Vec<bool>, effects: bool) ->
         16 => {
             // closed argument; wrapped in a limit so that the program terminates
             // (`repeat` of a filter without outputs never ends: give it an output)
-            let f = rand_prog(rng, depth - 1, &mut Vec::new(), effects);
+            let f = rand_prog(rng, depth - 1, env, effects);
             let g = if rng.chance(1, 2) { P::Repeat(b(comma(f, lit(8)))) } else { P::Recurse(b(f)) };
             P::Limit(1 + rng.below(3), b(g))
         }
